@@ -159,7 +159,8 @@ fn run_case(idx: usize, line: &str, dir: &str, stage_bin: &str, out: &mut Out) {
             _ => p,
         }
     };
-    let pv = if n == 1 {
+    // building the value can panic too (`from_exec_iter` has a documented panic for fewer than two commands)
+    let pv: Option<Pv> = std::panic::catch_unwind(std::panic::AssertUnwindSafe(|| if n == 1 {
         let mut e = mk(0);
         e = match in_kind.as_str() {
             "P" => e.stdin(Redirection::Pipe),
@@ -193,6 +194,19 @@ fn run_case(idx: usize, line: &str, dir: &str, stage_bin: &str, out: &mut Out) {
         };
         let mut p = if shape == "I" {
             set_out(set_in(Pipeline::from_exec_iter((0..n).map(|i| mk(i)).collect::<Vec<_>>()), &input))
+        } else if shape == "J" {
+            // an iterator that does not know its length in advance (size_hint = (0, Some(n)))
+            set_out(set_in(Pipeline::from_exec_iter((0..n).map(|i| mk(i)).filter(|_| true)), &input))
+        } else if shape == "K" {
+            // ... and one with no upper bound either (size_hint = (0, None))
+            let mut i = 0;
+            set_out(set_in(
+                Pipeline::from_exec_iter(std::iter::from_fn(|| {
+                    i += 1;
+                    if i <= n { Some(mk(i - 1)) } else { None }
+                })),
+                &input,
+            ))
         } else if let Some(rest) = shape.strip_prefix('P') {
             // (first m) | (rest), settings given before ('b') or after ('a') the composition
             let before = rest.ends_with('b');
@@ -208,11 +222,12 @@ fn run_case(idx: usize, line: &str, dir: &str, stage_bin: &str, out: &mut Out) {
         } else {
             set_out(set_in(chain(0, n), &input))
         };
-        if spec.get("errto") == "1" && !(early && shape != "I") {
+        if spec.get("errto") == "1" && !(early && !matches!(shape.as_str(), "I" | "J" | "K")) {
             p = p.stderr_to(open_rw(&errto));
         }
         Pv::Many(p)
-    };
+    }))
+    .ok();
     let term = spec.get("term").to_string();
     let rd = spec.get("read").to_string();
     let wr: usize = spec.get("write").parse().unwrap_or(0);
@@ -275,6 +290,10 @@ fn run_case(idx: usize, line: &str, dir: &str, stage_bin: &str, out: &mut Out) {
     };
     let res: Result<(), String> = std::panic::catch_unwind(std::panic::AssertUnwindSafe(|| -> Result<(), String> {
         let e2s = |e: subprocess::PopenError| format!("{:?}", e).chars().take(60).collect::<String>().replace(' ', "_");
+        let pv = match pv {
+            Some(p) => p,
+            None => return Err("panic-while-building-the-pipeline".into()),
+        };
         match (pv, term.as_str()) {
             (Pv::One(e), "popen") => {
                 let p = e.popen().map_err(e2s)?;
